@@ -58,12 +58,22 @@ fn c09_configs(tier: Tier) -> Vec<c09::C09> {
         for permitted in [1usize, 2] {
             let mut cfg = base_cfg(time_based);
             cfg.permitted = permitted;
-            v.push(c09::C09 { cfg: cfg.clone(), callers: tier.pick(3, 4).max(permitted + 2), max_ticks: 2, max_drops: 1, prepared: true });
+            v.push(c09::C09 { cfg: cfg.clone(), callers: tier.pick(3, 4).max(permitted + 2), max_ticks: 2, max_drops: 1, prepared: true, straggler: false });
+            if time_based && permitted == 2 {
+                // a half-open period that lasts longer than the (short) time window
+                let mut short = cfg.clone();
+                short.window_ms = 10;
+                v.push(c09::C09 { cfg: short, callers: 3, max_ticks: 2, max_drops: 0, prepared: true, straggler: false });
+            }
+            if permitted == 2 {
+                // callers 0,1 are used by the prelude; 2,3,4 arrive in the second half-open period
+                v.push(c09::C09 { cfg: cfg.clone(), callers: 5, max_ticks: 0, max_drops: 1, prepared: true, straggler: true });
+            }
             if tier == Tier::Thorough {
                 let mut cfg2 = cfg.clone();
                 cfg2.window_size = 1;
                 cfg2.min_calls = Some(1);
-                v.push(c09::C09 { cfg: cfg2, callers: permitted + 2, max_ticks: 4, max_drops: 1, prepared: false });
+                v.push(c09::C09 { cfg: cfg2, callers: permitted + 2, max_ticks: 4, max_drops: 1, prepared: false, straggler: false });
             }
         }
     }
@@ -111,7 +121,7 @@ fn main() {
             for w in ["rejected_beyond_permitted", "trial_call_in_flight", "two_callers_arrive_while_half_open", "closed_after_trials", "reopened_after_failed_trial", "trial_call_cancelled"] {
                 rep.require_witness(w);
             }
-            let depth = tier.pick(10, 14);
+            let depth = tier.pick(12, 14);
             rep.bounds = json!({"depth": depth, "callers": "permitted+2 .. 4", "wait_ms": 30});
             for cfg in c09_configs(tier) {
                 let opts = Opts { max_depth: depth, time_cap: Duration::from_secs(tier.pick(30, 600)), ..Opts::default() };
